@@ -86,7 +86,8 @@ def _order_component_mapping(
     mapping: Mapping[str, sp.Expr],
 ) -> OrderedDict[str, sp.Expr]:
     return collections.OrderedDict([
-        (key, mapping[key]) for key in sorted(mapping, key=natural_sorting)
+        (key, mapping[key])
+        for key in sorted(mapping, key=lambda k: (natural_sorting(k), k))
     ])
 
 
@@ -95,7 +96,7 @@ def _order_symbol_mapping(
 ) -> OrderedDict[sp.Symbol, sp.Expr]:
     return collections.OrderedDict([
         (symbol, mapping[symbol])
-        for symbol in sorted(mapping, key=lambda s: natural_sorting(s.name))
+        for symbol in sorted(mapping, key=lambda s: (natural_sorting(s.name), s.name))
     ])
 
 
@@ -104,7 +105,7 @@ def _order_amplitudes(
 ) -> OrderedDict[sp.Indexed, sp.Expr]:
     return collections.OrderedDict([
         (key, mapping[key])
-        for key in sorted(mapping, key=lambda a: natural_sorting(str(a)))
+        for key in sorted(mapping, key=lambda a: (natural_sorting(str(a)), str(a)))
     ])
 
 
